@@ -97,7 +97,13 @@ class BaseSession(SessionInterface, Generic[MessageT]):
 
     async def _get_selected(self, selected: SelectedMailbox) \
             -> MailboxDataInterface[MessageT]:
-        return await self._get_mailbox(selected.lookup)
+        mbx = await self._get_mailbox(selected.lookup)
+        if mbx.mailbox_id != selected.mailbox_id:
+            # the name now denotes another mailbox (it was deleted or renamed
+            # away and created again, or INBOX was renamed): the selected
+            # mailbox itself is gone
+            raise MailboxNotFound(selected.lookup)
+        return mbx
 
     async def list_mailboxes(self, ref_name: str, filter_: str,
                              subscribed: bool = False,
@@ -153,6 +159,12 @@ class BaseSession(SessionInterface, Generic[MessageT]):
             raise MailboxNotFound(before_name) from exc
         except ValueError as exc:
             raise MailboxConflict(after_name) from exc
+        if selected and before_name.upper() == 'INBOX' \
+                and str(selected.lookup).upper() == 'INBOX':
+            # renaming INBOX leaves a new, empty INBOX behind: the session that
+            # asked for it stays connected, its selection is found stale by
+            # its next command
+            return selected
         return await self._load_updates(selected, None)
 
     async def subscribe(self, name: str,
